@@ -196,8 +196,10 @@ def _geom_local_to_global(
 
   if body_weldid[bodyid] == 0 and body_mocapid[body_rootid[bodyid]] == -1:
     # geoms attached to the world are static (unless they are descended from mcocap bodies)
-    # for such static geoms, geom_xpos and geom_xquat are computed only once during make_data
-    return
+    # for such static geoms, geom_xpos and geom_xquat are computed only once during make_data,
+    # from the unbatched MjModel: that value is only valid if geom_pos and geom_quat are not batched
+    if geom_pos.shape[0] == 1 and geom_quat.shape[0] == 1:
+      return
 
   xpos = xpos_in[worldid, bodyid]
   xquat = xquat_in[worldid, bodyid]
